@@ -2,7 +2,7 @@
    `orc` is the blob oracle (vellum / roaring / snappy decoding done by the harness co-process). *)
 From Coq Require Import List NArith ZArith Bool.
 Import ListNotations.
-Require Import Sx Bytes Kernel Footer Ref Spec Wire Layout SpecMerge Iter Iter1 Automata Dict Pool BuildReuse.
+Require Import Sx Bytes Kernel Footer Ref Spec Wire Layout SpecMerge Iter Iter1 Automata Dict Pool BuildReuse IO Cancel.
 Open Scope N_scope.
 
 (* ---- C20: (1 ops) with op 0 = AddRef, 1 = DecRef/Close ---- *)
@@ -223,6 +223,40 @@ Definition h_reuse (args : list sx) : sx :=
   | _ => sxerr 122
   end.
 
+(* ---- C17: (b cap limit (size ...)) : a buffered writer of capacity cap over a sink that accepts
+   `limit` bytes in total; the writes (results ignored) then the final checked Flush;
+   answer: (flush_error sink_length) ---- *)
+Definition h_io (args : list sx) : sx :=
+  match args with
+  | [A cap; lim; sizes] =>
+      match getLA sizes, lim with
+      | Some szs, L l =>
+          let limit := match l with [A k] => Some (N.to_nat k) | _ => None end in
+          let s0 := {| IO.written := @nil unit; IO.limit := limit |} in
+          let ps := map (fun n => repeat tt (N.to_nat n)) szs in
+          let '(b', e) := IO.flush unit (IO.run unit (IO.fresh unit (N.to_nat cap) s0) ps) in
+          L [sxb e; A (N.of_nat (length (IO.written unit (IO.dst unit b'))))]
+      | _, _ => sxerr 111
+      end
+  | _ => sxerr 112
+  end.
+
+(* ---- C18: (e p (event ...)) with event = size+1 for a write of `size` bytes, 0 for a poll;
+   answer: () cancelled or (written) ---- *)
+Definition h_cancel (args : list sx) : sx :=
+  match args with
+  | [A p; evs] =>
+      match getLA evs with
+      | Some l =>
+          match exec (N.to_nat p) 0 (map (fun n => if n =? 0 then Poll else W (N.to_nat (n - 1))) l) 0 with
+          | Cancelled => L []
+          | Done w => L [A (N.of_nat w)]
+          end
+      | None => sxerr 141
+      end
+  | _ => sxerr 142
+  end.
+
 Definition handle (orc : sx -> sx) (req : sx) : sx :=
   match req with
   | L (A k :: args) =>
@@ -234,6 +268,8 @@ Definition handle (orc : sx -> sx) (req : sx) : sx :=
       else if k =? 6 then h_iter args
       else if k =? 7 then h_dict orc args
       else if k =? 10 then h_pool args
+      else if k =? 11 then h_io args
+      else if k =? 14 then h_cancel args
       else if k =? 18 then h_reuse args
       else sxerr 0
   | _ => sxerr 0
